@@ -11,6 +11,7 @@ package store
 import (
 	"os"
 	"os/exec"
+	"strings"
 
 	"modernc.org/sqlite"
 )
@@ -48,7 +49,11 @@ func vCrashArm() {
 		return
 	}
 	left := vCrashK
-	sqlite.VerifHook = func() {
+	sqlite.VerifHook = func(sql string) {
+		if len(sql) >= 6 && strings.EqualFold(sql[:6], "pragma") {
+			// connection set-up of the database/sql pool (DSN pragmas), not a statement of the code under test
+			return
+		}
 		if left == 0 {
 			os.Exit(3) // process death: no deferred calls, no rollback, no close
 		}
